@@ -211,6 +211,8 @@ impl<S: BarrierSemantics> ObjectBarrier<S> {
             if old_value == 0 {
                 return false;
             }
+            #[cfg(feature = "mmtk_verif")]
+            crate::verif::gc::yp(crate::verif::gc::Site::LogObject);
             if S::UNLOG_BIT_SPEC
                 .compare_exchange_metadata::<S::VM, u8>(
                     object,
@@ -318,6 +320,8 @@ impl<S: BarrierSemantics> Barrier<S::VM> for SATBBarrier<S> {
         target: Option<ObjectReference>,
     ) {
         if self.object_is_unlogged(src) {
+            #[cfg(feature = "mmtk_verif")]
+            crate::verif::gc::yp(crate::verif::gc::Site::SatbBarrier);
             self.semantics
                 .object_reference_write_slow(src, slot, target);
         }
